@@ -70,6 +70,17 @@ CHECKS = {
              "offsets and rank/file masks equal geometry; Square::offset never wraps (64x25 cases folded); BitBoard::shift clears the leaving file.",
         design_ref="DESIGN.md section 4, C09",
         note=TB_COMMON + " Three loop shapes are read, not proved (compute_ray, compute_blockers_from_index, iteration over Square::ALL); lazy_static initialises each table once."),
+    "C01": dict(
+        category="other",
+        technique="static analysis: MIR term extraction and sibling agreement across the per-kind generators, dominator/must-pass-through checks on the "
+                  "legality filter, decision-table extraction, constant folding of castle mask/square terms for the 4 (side, colour) pairs against a geometry oracle",
+        text="Decides only the structural clauses (necessary conditions) G1-G10: generator coverage, piece-kind agreement, destination-set conjuncts, "
+             "every candidate filtered by try_as_legal_move whose Some is guarded by the king-safety test on the successor, castle path/check masks and "
+             "king squares equal to geometry and wired to occupancy / opponent attacks under the matching right, colour-direction and promotion tables, "
+             "pawn capture offset pairing, en passant candidates, perft wiring. Equality of the generated move set with the FIDE rules over all positions "
+             "and perft counts are NOT decided by static analysis.",
+        design_ref="DESIGN.md section 4, C01",
+        note=TB_COMMON + " Relies on C09 (attack tables) and C20 (move encoding). A sound legality fast path that bypasses the king-safety test would be reported (G4)."),
 }
 
 NOT_BUILT_REASON = "check not built yet (see DESIGN.md for the plan)"
